@@ -1,6 +1,6 @@
 """Confirm and evaluate a seeded change written by an independent sub-agent.
 
-usage: seeded_eval.py <name> <source dir with patch.diff demo.py notes.md> <property id> [--all] [--tier quick|thorough]
+usage: seeded_eval.py <name> <source dir with patch.diff demo.py notes.md> <property id> [--all] [--tier quick|thorough] [--written-for-tree]
 
 Steps (all in a scratch copy of /repo under /dev/shm, removed afterwards; /repo itself is not touched so that
 background runs are not disturbed - equivalent to `git -C /repo apply` + checks + `git -C /repo checkout -- .`):
@@ -63,7 +63,9 @@ def main():
             or meta['evaluated_at_repo_commit']
         meta['written_for_commit'] = written_for
         rc, o, e = run(['patch', '-p1', '-s', '--dry-run', '-d', tree, '-i', os.path.join(src, 'patch.diff')])
-        if rc != 0 and written_for != meta['evaluated_at_repo_commit']:
+        old_meta = json.load(open(old_meta_path)) if os.path.exists(old_meta_path) else {}
+        force = '--written-for-tree' in sys.argv or bool(old_meta.get('force_written_for_tree'))      # the change depends on code a later fix: commit removed: evaluate it on the tree it was written for
+        if (rc != 0 or force) and written_for != meta['evaluated_at_repo_commit']:
             # the tree has moved on (fix: commits) and the patch no longer applies: evaluate it on the tree it was written for
             shutil.rmtree(tree)
             os.makedirs(tree)
@@ -110,6 +112,11 @@ def main():
         if old.get('checks'):
             hist.append({'at_verif_commit': old.get('verif_commit'), 'detected_by': old.get('detected_by'), 'checks': old.get('checks')})
         meta['history'] = hist
+        for keep in ('verdict_note', 'force_written_for_tree'):
+            if keep in old:
+                meta[keep] = old[keep]
+        if force:
+            meta['force_written_for_tree'] = True
         meta['verif_commit'] = subprocess.run(['git', '-C', ROOT, 'rev-parse', '--short', 'HEAD'], capture_output=True, text=True).stdout.strip()
         if os.path.exists(os.path.join(src, 'notes.md')):
             meta['needs_to_manifest'] = open(os.path.join(src, 'notes.md')).read()[:1500]
